@@ -190,7 +190,7 @@ def gen_case(rng, family, big=False):
         kind = rng.choice(KINDS_OF_FN[fn])
     n = rng.randint(6, 8) if big else rng.choice([1, 2, 2, 3, 3, 4, 4, 5, 6])
     c = {"family": family, "fn": fn, "kind": kind, "n": n, "terms": gen_terms(rng, n, fn, kind),
-         "labels": "int" if kind in MATRIX else rng.choice(Labels.STYLES),
+         "labels": "int" if kind in MATRIX else rng.choice(Labels.STYLES_X),
          "num": rng.choice(["int", "int", "frac", "float"]), "all": rng.random() < 0.5,
          "via": "method" if family == "method" else "free", "seed": rng.randrange(1 << 30)}
     if c["num"] == "float" and any(Fraction(v).denominator & (Fraction(v).denominator - 1) for _, v in c["terms"]):
@@ -229,7 +229,7 @@ def gen_hist_case(rng, via, kinds=None, family="mhist"):
     if rng.random() < 0.3:
         hist.append({"op": rng.choice(HIST_OPS), "var": rng.randrange(n)})
     c = {"family": family, "fn": fn, "kind": kind, "n": n + 1, "terms": terms, "hist": hist,
-         "labels": "int" if kind in MATRIX else rng.choice(Labels.STYLES),
+         "labels": "int" if kind in MATRIX else rng.choice(Labels.STYLES_X),
          "num": rng.choice(["int", "int", "frac", "float"]), "all": rng.random() < 0.5, "via": via,
          "seed": rng.randrange(1 << 30),
          "valid": {"t": "always"} if via == "method" else gen_pred(rng, n, fn in SPIN_FN)}
@@ -765,7 +765,7 @@ def malformed_case(rng):
     n = rng.randint(3, 5)
     terms = gen_terms(rng, n, "pubo", "dict", nterms=rng.randint(1, 4))
     terms.append([rng.sample(range(n), 3), gen_coef(rng, False)])
-    return {"family": "malformed", "fn": fn, "kind": "dict", "n": n, "terms": terms, "labels": rng.choice(Labels.STYLES),
+    return {"family": "malformed", "fn": fn, "kind": "dict", "n": n, "terms": terms, "labels": rng.choice(Labels.STYLES_X),
             "num": "int", "all": rng.random() < 0.5, "via": "free", "valid": gen_pred(rng, n, fn == "quso"),
             "seed": rng.randrange(1 << 30)}
 
@@ -788,7 +788,7 @@ def bhist_case(rng, via):
     for t in extra:
         terms.insert(rng.randrange(len(terms) + 1), t)
     c = {"family": "bhist", "variant": variant, "fn": fn, "kind": kind, "n": n + 1, "terms": terms,
-         "labels": rng.choice(Labels.STYLES), "num": rng.choice(["int", "int", "frac"]), "all": rng.random() < 0.5,
+         "labels": rng.choice(Labels.STYLES_X), "num": rng.choice(["int", "int", "frac"]), "all": rng.random() < 0.5,
          "via": via, "seed": rng.randrange(1 << 30),
          "valid": {"t": "always"} if via == "method" else gen_pred(rng, n + 1, fn in SPIN_FN)}
     if rng.random() < 0.5:
@@ -956,7 +956,7 @@ def multi_case(rng):
         fns = [f for f in KINDS_OF_FN if kind in KINDS_OF_FN[f] and (deg2 or f in ("pubo", "puso"))]
     n = rng.randint(2, 4)
     gfn = "qubo" if deg2 else "pubo"
-    c = {"family": "multi", "kind": kind, "fn": fns[0], "n": n, "labels": "int" if kind in MATRIX else rng.choice(Labels.STYLES),
+    c = {"family": "multi", "kind": kind, "fn": fns[0], "n": n, "labels": "int" if kind in MATRIX else rng.choice(Labels.STYLES_X),
          "terms": gen_terms(rng, n, gfn, kind, nterms=rng.randint(1, 5)),
          "num": rng.choice(["int", "int", "frac"]), "all": False, "via": "free", "valid": {"t": "always"},
          "seed": rng.randrange(1 << 30)}
